@@ -57,3 +57,18 @@ CORPUS = [
 
 def for_prop(prop):
     return [v for v in CORPUS if v.prop == prop]
+
+CORPUS += [
+    # ---------------------------------------------------------------- C05
+    V("C05", "cvrp-cap-ge", R + "cvrp/env.py", 'td["demand"] + td["used_capacity"] > td["vehicle_capacity"]', 'td["demand"] + td["used_capacity"] >= td["vehicle_capacity"]', "C05.a"),
+    V("C05", "mtvrp-tw-strict-again", R + "mtvrp/env.py", "can_reach_customer = arrival_time <= late_tw", "can_reach_customer = arrival_time < late_tw", "C05.a"),
+    V("C05", "cvrptw-tw-strict", R + "cvrptw/env.py", 'td["current_time"] + dist <= td["time_windows"][..., 1]', 'td["current_time"] + dist < td["time_windows"][..., 1]', "C05.a"),
+    V("C05", "pctsp-prize-le", R + "pctsp/env.py", '(td["cur_total_prize"] < 1.0)', '(td["cur_total_prize"] <= 1.0)', "C05.a"),
+    V("C05", "op-length-ge", R + "op/env.py", "            > td[\"max_length\"]\n", "            >= td[\"max_length\"]\n", "C05.a"),
+    V("C05", "mtvrp-cap-eps-tight", R + "mtvrp/env.py", 'td["demand_linehaul"] + td["used_capacity_linehaul"] > td["vehicle_capacity"]', 'td["demand_linehaul"] + td["used_capacity_linehaul"] > td["vehicle_capacity"] - 1e-6', "C05.a"),
+    V("C05", "fjsp-busy-ge", "rl4co/envs/scheduling/fjsp/env.py", 'td["busy_until"].gt(td["time"].unsqueeze(1))', 'td["busy_until"].ge(td["time"].unsqueeze(1))', "C05.a"),
+    V("C05", "mtvrp-dist-limit-ge", R + "mtvrp/env.py", "            > td[\"distance_limit\"]\n", "            >= td[\"distance_limit\"]\n", "C05.a"),
+    V("C05", "eq-cvrp-move-terms", R + "cvrp/env.py", 'exceeds_cap = td["demand"] + td["used_capacity"] > td["vehicle_capacity"]', 'exceeds_cap = td["vehicle_capacity"] - td["used_capacity"] < td["demand"]', None),
+    V("C05", "eq-cvrptw-not-gt", R + "cvrptw/env.py", 'td["current_time"] + dist <= td["time_windows"][..., 1]', '~(td["current_time"] + dist > td["time_windows"][..., 1])', None),
+    V("C05", "eq-fjsp-gt-operator", "rl4co/envs/scheduling/fjsp/env.py", 'td["busy_until"].gt(td["time"].unsqueeze(1))', '(td["busy_until"] > td["time"].unsqueeze(1))', None),
+]
